@@ -1,7 +1,12 @@
 use std::{fs::File, mem, sync::Arc};
 
 use log::{debug, trace};
+#[cfg(not(feature = "verif"))]
 use parking_lot::{Mutex, RwLock, RwLockReadGuard, RwLockWriteGuard};
+#[cfg(feature = "verif")]
+use parking_lot::Mutex;
+#[cfg(feature = "verif")]
+use crate::verif_sync::{RwLock, RwLockReadGuard, RwLockWriteGuard};
 
 use crate::{Database, Error, Reader, RegionMetadata, Result, WeakDatabase};
 
